@@ -6,19 +6,10 @@ the connection's own record of its parameters equals the bytes it sent.
 Property theorems only (helpers: Uquic/Proofs/Limits.lean, Uquic/Proofs/LimitsWire.lean). Model:
 Uquic/Model/UQuic/Limits.lean (`advertised`, `enforced`, `LimitsCovered`, `PeerEvent.within/fires`).
 
-STATE OF THE CODE. The full statement (`no_error_within_advertised_full`) is FALSE on /repo by construction:
-the advertised values come from the QUICSpec, the enforced ones from quic.Config and constants. It is kept as
-a `def … : Prop`, its negation is proved (`no_error_within_advertised_full_false`), the guarded form is
-`no_error_within_advertised_partial`, and every mismatch CONFIRMED end to end by the `limits` driver has a
-`decide`d witness below, stated on the generated facts (`Uquic.Gen.Limits.specParams_*` = what u_parrot.go
-lists, `Uquic.Gen.Protocol.Default*` = what populateConfig fills in).
-
-WHEN THE CODE IS REPAIRED (e.g. fixes/C12-enforce-advertised.diff: enforced := max(Config, advertised)): the
-read-back line of the driver (`enf: cw=… swbl=… miu=… dg=… idle=…`) no longer matches the model ⇒ the check
-reports a correspondence DIFF. Then (1) change `enforced` / `specEnforced` in the model to the new derivation,
-(2) the witness theorems `*_not_covered*` and `no_error_within_advertised_full_false` stop compiling — delete
-them, rename `_full` into a theorem (it becomes `spec_client_covered` + `_partial`), (3) drop the C12 entries
-from known_findings.json. A broken witness is the intended signal that the finding list is out of date.
+STATE OF THE CODE (after the repair fixes/C12-enforce-advertised.diff + fixes/C12-record-max-udp-payload-size.diff):
+newUClientConnection recomputes its Config from the advertised transport parameters before preSetup (generated
+shape fact `specConfigCoversAdvertised = true`), so the full statement holds for every spec that lists a
+max_idle_timeout (`no_error_within_advertised`), for every user Config.
 -/
 import Uquic.Proofs.Limits
 import Uquic.Proofs.LimitsWire
@@ -39,13 +30,6 @@ example : LimitsCovered (specAdvertised Limits.specParams_QUICChrome_146_IPv4)
 
 /-! ## 2. no local error within the advertised limits -/
 
-/-- FULL statement: for every spec parameter list, every (valid) user Config and every peer history that stays
-    within what the client advertised, none of the client's enforcing checks fires. FALSE on /repo. -/
-def no_error_within_advertised_full : Prop :=
-  ∀ (ps : ParamList) (user : Config), user.Valid →
-    ∀ evs : List PeerEvent, (∀ ev ∈ evs, ev.within (specAdvertised ps)) →
-      ∀ ev ∈ evs, ev.fires (specEnforced ps user) = false
-
 /-- PARTIAL (guarded) form, for arbitrary advertised/enforced limits: when advertised ≤ enforced componentwise,
     no check fires on any peer history within the advertised limits. -/
 theorem no_error_within_advertised_partial (adv enf : Limits) (hc : LimitsCovered adv enf)
@@ -62,14 +46,6 @@ theorem spec_no_error_when_covered (ps : ParamList) (user : Config) (hc : SpecCo
 example : let adv := specAdvertised Limits.specParams_QUICFirefox_116A
     ∀ ev ∈ [PeerEvent.connData 25165824, .streamData .bidiLocal 12582912, .openStream true 16, .newConnID 7,
             .datagram 1200, .silence 29999 600000 0], ev.within adv := by decide
-
-/-- the negation of the full statement, by the Chrome 115 parrot with the default Config: the peer sends
-    initial_max_data = 15728640 bytes, the connection flow controller allows 786432 -/
-theorem no_error_within_advertised_full_false : ¬ no_error_within_advertised_full := by
-  intro h
-  have := h Limits.specParams_QUICChrome_115_IPv4 {} (by decide) [.connData 15728640] (by decide)
-    (.connData 15728640) (by simp)
-  revert this; decide
 
 /-- The repair (fixes/C12-enforce-advertised.diff) is sound in the model: ONCE the generated shape fact says that
     newUClientConnection recomputes its Config from the advertised parameters before preSetup, every spec
@@ -91,6 +67,19 @@ theorem cover_config_no_error (c : Config) (p : OwnParams) (hidle : 0 < p.maxIdl
     (evs : List PeerEvent) (hw : ∀ ev ∈ evs, ev.within (advertised p)) :
     ∀ ev ∈ evs, ev.fires (enforced (coverConfig c p) p.activeConnectionIDLimit) = false :=
   no_error_within_advertised_partial _ _ (cover_config_covers c p hidle) evs hw
+
+/-- FULL statement (for specs that list a max_idle_timeout, as every built-in one does): for every user Config
+    and every peer history within what the client advertised, none of the client's enforcing checks fires. -/
+theorem no_error_within_advertised (ps : ParamList) (user : Config) (hidle : 0 < (populate ps).maxIdleTimeout)
+    (evs : List PeerEvent) (hw : ∀ ev ∈ evs, ev.within (specAdvertised ps)) :
+    ∀ ev ∈ evs, ev.fires (specEnforced ps user) = false :=
+  spec_no_error_when_covered ps user (spec_client_covered_after_repair (by decide) ps user hidle) evs hw
+
+/-- every built-in spec is covered, for every user Config -/
+theorem builtin_specs_covered (user : Config) : ∀ ps ∈ Limits.builtinParamLists, SpecCovered ps user := by
+  intro ps hps
+  have : ∀ ps ∈ Limits.builtinParamLists, 0 < (populate ps).maxIdleTimeout := by decide
+  exact spec_client_covered_after_repair (by decide) ps user (this ps hps)
 
 /-! ## 3. the plain client is consistent -/
 
@@ -156,17 +145,18 @@ theorem idle_timeout_respects_advertised (advIdle cfgIdle : Int) (hcfg : 0 < cfg
 /-- both sides of the equivalence are inhabited: Config 30 s covers an advertised 30 s, Config 10 s does not -/
 example : (0 < (30000 : Int) ∧ (30000 : Int) ≤ 30000) ∧ ¬ (0 < (30000 : Int) ∧ (30000 : Int) ≤ 10000) := by decide
 
-/-- witness (CONFIRMED, corpus user-config-below-spec.ops): Chrome 146 advertises 30 s; with
-    Config.MaxIdleTimeout = 10 s the client gives up after 10 s although the peer may count on 30 s -/
-theorem idle_timeout_witness :
+/-- Chrome 146 advertises 30 s; with Config.MaxIdleTimeout = 10 s the client now waits 30 s -/
+example :
     let adv := (specAdvertised Limits.specParams_QUICChrome_146_IPv4).idle
     let cfg := (specEnforced Limits.specParams_QUICChrome_146_IPv4 { maxIdleTimeout := 10000 }).idle
-    promisedIdle adv 0 = some 30000 ∧ effectiveIdle cfg 0 0 = 10000 ∧ ¬ (adv ≤ cfg) := by decide
+    promisedIdle adv 0 = some 30000 ∧ effectiveIdle cfg 0 0 = 30000 := by decide
 
 /-! ## 5. the record equals the bytes -/
 
 /-- FULL statement: decoding the marshalled parameter list the way a peer does gives the connection's own
-    record. FALSE on /repo: PopulateFromUQUIC has no case for max_udp_payload_size. -/
+    record. Holds for every list of recognised ids (`record_equals_bytes_when_recognised`), in particular for
+    every built-in spec (`builtin_spec_ids_recognised`); not for ids no uTLS parameter type expresses
+    (ack_delay_exponent), which PopulateFromUQUIC has no case for. -/
 def record_equals_bytes_full : Prop :=
   ∀ ps : List (Nat × Nat), WellFormed ps → recordOfBytes (marshal ps) = some (populate (toInts ps))
 
@@ -189,22 +179,15 @@ theorem record_equals_bytes_when_recognised (ps : List (Nat × Nat)) (hwf : Well
   simp only [recordOfBytes, parse_marshal ps hwf, Option.map_some, populate]
   rw [populateWith_eq_recordAll _ _ hrec]
 
-/-- the Firefox parrots only list recognised ids (the Chrome parrots also list max_udp_payload_size) -/
 example : ∀ iv ∈ Limits.specParams_QUICFirefox_116A, Limits.populateRecognises.contains iv.1 = true := by decide
 
 /-- the bytes themselves lose nothing: they parse back to exactly the listed (id, value) pairs -/
 theorem bytes_parse_back (ps : List (Nat × Nat)) (hwf : WellFormed ps) :
     (parseInts (marshal ps)) = some ps := parse_marshal ps hwf
 
-/-- witness (CONFIRMED, every Chrome parrot): the bytes say max_udp_payload_size = 1472, the record says 0 -/
-theorem record_equals_bytes_full_false : ¬ record_equals_bytes_full := by
-  intro h
-  have := h [(3, 1472)] (by decide)
-  revert this; decide
-
-theorem chrome115_record_omits_max_udp_payload_size :
-    (populate Limits.specParams_QUICChrome_115_IPv4).maxUDPPayloadSize = 0 ∧
-    (recordAll Limits.specParams_QUICChrome_115_IPv4).maxUDPPayloadSize = 1472 := by decide
+/-- every built-in spec only lists ids PopulateFromUQUIC recognises -/
+theorem builtin_spec_ids_recognised :
+    ∀ ps ∈ Limits.builtinParamLists, ∀ iv ∈ ps, Limits.populateRecognises.contains iv.1 = true := by decide
 
 /-! ## 6. connection IDs (after /repo 06daca1) -/
 
@@ -227,46 +210,7 @@ theorem connid_no_error (ps : ParamList) (user : Config) (queued : Int)
 example : (specAdvertised Limits.specParams_QUICFirefox_116A).cids = 8 ∧
     (specEnforced Limits.specParams_QUICFirefox_116A {}).cids = 8 := by decide
 
-/-! ## 7. witnesses of the CONFIRMED mismatches (default Config unless stated) -/
-
-/-- no built-in spec is covered by the default Config -/
-theorem builtin_specs_not_covered_by_default_config :
-    ∀ ps ∈ Limits.builtinParamLists, ¬ SpecCovered ps {} := by decide
-
-theorem chrome_initial_max_data_not_covered :
-    ¬ ((specAdvertised Limits.specParams_QUICChrome_115_IPv4).connData ≤
-       (specEnforced Limits.specParams_QUICChrome_115_IPv4 {}).connData) := by decide
-
-theorem firefox_initial_max_data_not_covered :
-    ¬ ((specAdvertised Limits.specParams_QUICFirefox_116A).connData ≤
-       (specEnforced Limits.specParams_QUICFirefox_116A {}).connData) := by decide
-
-/-- every built-in spec advertises a connection window and three stream windows above the enforced ones -/
-theorem builtin_flow_windows_not_covered :
-    ∀ ps ∈ Limits.builtinParamLists,
-      let a := specAdvertised ps; let e := specEnforced ps {}
-      e.connData < a.connData ∧ e.streamBidiLocal < a.streamBidiLocal ∧
-      e.streamBidiRemote < a.streamBidiRemote ∧ e.streamUni < a.streamUni := by decide
-
-theorem chrome_initial_max_streams_uni_not_covered :
-    (specAdvertised Limits.specParams_QUICChrome_115_IPv4).streamsUni = 103 ∧
-    (specEnforced Limits.specParams_QUICChrome_115_IPv4 {}).streamsUni = 100 ∧
-    (PeerEvent.openStream false 103).within (specAdvertised Limits.specParams_QUICChrome_146_IPv4) ∧
-    (PeerEvent.openStream false 103).fires (specEnforced Limits.specParams_QUICChrome_146_IPv4 {}) = true := by decide
-
-/-- bidirectional streams are covered by the default Config but not by a smaller user value -/
-theorem chrome_initial_max_streams_bidi_not_covered_by_user_config :
-    (specAdvertised Limits.specParams_QUICChrome_146_IPv4).streamsBidi ≤
-      (specEnforced Limits.specParams_QUICChrome_146_IPv4 {}).streamsBidi ∧
-    ¬ ((specAdvertised Limits.specParams_QUICChrome_146_IPv4).streamsBidi ≤
-      (specEnforced Limits.specParams_QUICChrome_146_IPv4 { maxIncomingStreams := 16 }).streamsBidi) := by decide
-
-/-- every built-in spec advertises DATAGRAM support; with the default Config a DATAGRAM frame is an unknown frame -/
-theorem builtin_datagram_not_covered :
-    ∀ ps ∈ Limits.builtinParamLists,
-      0 < (specAdvertised ps).datagram ∧ (specEnforced ps {}).datagram = 0 ∧
-      (PeerEvent.datagram 1).within (specAdvertised ps) ∧ (PeerEvent.datagram 1).fires (specEnforced ps {}) = true := by
-  decide
+/-! ## 7. datagram size -/
 
 /-- with EnableDatagrams the advertised size is covered although Chrome's 65536 exceeds wire.MaxDatagramSize:
     no receivable packet carries a frame that large -/
